@@ -9,6 +9,7 @@ of the cells of `k`.
 import RpylibModel.Model.Samplers
 import RpylibModel.Proofs.Lemmas.C02Inversion
 import RpylibModel.Proofs.Lemmas.C02Alias
+import RpylibModel.Proofs.Lemmas.C02AliasBuild
 import RpylibModel.Proofs.Lemmas.C02Bst
 import RpylibModel.Proofs.Lemmas.C02Huffman
 import RpylibModel.Proofs.Lemmas.C02Adapted
@@ -181,6 +182,25 @@ theorem draw_lt (t : Tables) (hK : 0 < t.K) (hJ : ∀ x, x < t.K → t.J x < t.K
   rw [draw_eq]; split_ifs
   · exact hx
   · exact hJ _ hx
+
+/-- **alias construction**: the Walker/Vose construction `create_alias` as coded (LIFO stacks, main loop, the two
+    clean-up loops) realises the input vector: for every size `K > 0` and every `p ≥ 0` with `Σ_{l<K} p l = 1`, the
+    law induced by the built tables is `p`.  (Vose invariant `K p_k = q_k + Σ_{j done, J_j = k}(1 − q_j)` and
+    `Σ_live q = #live` over `mainLoop`; fuel `K` is never exhausted; in exact arithmetic both clean-up loops only
+    overwrite entries that already equal 1.)  With `draw_spec` and `law_of_cells`: the set of `u` sent to `k` has
+    total length `p k`. -/
+theorem build_law (K : Nat) (hK : 0 < K) (p : Nat → Rat) (hp : ∀ l, l < K → 0 ≤ p l)
+    (hsum : ((List.range K).map p).sum = 1) (k : Nat) (hk : k < K) : lawOfTables (build K p) k = p k :=
+  build_law_finset K hK p hp (by rw [← list_range_sum]; exact hsum) k hk
+
+/-- the u-cells of the built tables have total length `p k`, and a state with `p k = 0` is never returned -/
+theorem build_realises (K : Nat) (hK : 0 < K) (p : Nat → Rat) (hp : ∀ l, l < K → 0 ≤ p l)
+    (hsum : ((List.range K).map p).sum = 1) (k : Nat) (hk : k < K) :
+    lengthOf (cells (build K p)) k = p k ∧
+      (p k = 0 → ∀ u, 0 ≤ u → u < 1 → draw (build K p) u ≠ k) := by
+  have hb := build_law K hK p hp hsum k hk
+  have hKb : 0 < (build K p).K := hK
+  refine ⟨by rw [law_of_cells, hb], fun hz u h0 h1 => zero_never (build K p) hKb k (by rw [hb, hz]) u h0 h1⟩
 
 /-- non-vacuity: the tables built by `create_alias` for p = (1/8, 1/2, 1/4, 1/8) realise p -/
 example : (List.range 4).map (lawOfTables (build 4 (fun i => [1/8, 1/2, 1/4, 1/8].getD i 0))) = [1/8, 1/2, 1/4, 1/8] := by
